@@ -7,10 +7,15 @@
    [step (Thr t)] = the next synchronisation action of thread t; None = blocked / finished. *)
 From God Require Import Base.Prelude C18.Conc.
 
+(* a scripted user fn with value 0 panics instead of returning *)
+Definition pan_flag (v : nat) : nat := if Nat.eqb v 0 then 1 else 0.
+
 (* ============================================================== singleflight.go *)
 Module SF.
   (* script op: o_code ignored (Do/DoEx differ only in what they return), o_a = key,
-     o_b = gate the user fn waits on, o_c = the value the user fn returns *)
+     o_b = gate the user fn waits on, o_c = the value the user fn returns; o_c = 0: the user fn
+     PANICS (after its gate): c.val stays nil (= 0), the deferred cleanup of makeCall runs, and the
+     panic reaches the caller of Do (result (2, nil)) *)
   Inductive pc :=
   | Idle
   | CLock                (* createCall: about to g.lock.Lock()            l.56 *)
@@ -94,7 +99,7 @@ Module SF.
             if gate_open (open s) (t_gate x) then
               Some (mk (lock s) (calls s) (wg s) (upd (cval s) c (t_val x)) (next s) (open s)
                        (upd (ts s) t (setpc x (DLock c)))
-                       (mkev t KEnd 0 (t_key x) (t_val x) 0 :: trace s) (panicked s) (cre s) (ckey s))
+                       (mkev t KEnd 0 (t_key x) (t_val x) (pan_flag (t_val x)) :: trace s) (panicked s) (cre s) (ckey s))
             else None
         | DLock c => match lock s with None => go (Some t) (setpc x (DDel c)) | Some _ => None end
         | DDel c =>
@@ -103,8 +108,8 @@ Module SF.
         | DUnlock c => go None (setpc x (DDone c))
         | DDone c =>
             Some (mk (lock s) (calls s) (upd (wg s) c (wg s c - 1)) (cval s) (next s) (open s)
-                     (upd (ts s) t (mkt Idle (t_key x) (t_gate x) (t_val x) (t_todo x) ((1, cval s c) :: t_res x)))
-                     (mkev t KRet 0 (t_key x) (cval s c) 1 :: trace s)
+                     (upd (ts s) t (mkt Idle (t_key x) (t_gate x) (t_val x) (t_todo x) ((S (pan_flag (t_val x)), cval s c) :: t_res x)))
+                     (mkev t KRet 0 (t_key x) (cval s c) (S (pan_flag (t_val x))) :: trace s)
                      (panicked s || Nat.eqb (wg s c) 0) (cre s) (ckey s))
         end
     end.
@@ -115,7 +120,9 @@ End SF.
 
 (* ============================================================== lockedcalls.go *)
 Module LC.
-  (* script op: o_a = key, o_b = gate of the user fn, o_c = value the user fn returns *)
+  (* script op: o_a = key, o_b = gate of the user fn, o_c = value the user fn returns; o_c = 0: the
+     user fn panics: makeCall's deferred function (delete, Done) runs and the panic reaches the
+     caller (result (2, 0)) *)
   Inductive pc :=
   | Idle
   | LLock                (* begin: lg.mu.Lock()                             l.27-28 *)
@@ -188,7 +195,7 @@ Module LC.
         | FnE c =>
             if gate_open (open s) (t_gate x) then
               Some (mk (lock s) (calls s) (wg s) (next s) (open s) (upd (ts s) t (setpc x (DLock c)))
-                       (mkev t KEnd 1 (t_key x) (t_val x) 0 :: trace s) (panicked s) (cre s))
+                       (mkev t KEnd 1 (t_key x) (t_val x) (pan_flag (t_val x)) :: trace s) (panicked s) (cre s))
             else None
         | DLock c => match lock s with None => go (Some t) (setpc x (DDel c)) | Some _ => None end
         | DDel c =>
@@ -197,8 +204,8 @@ Module LC.
         | DUnlock c => go None (setpc x (DDone c))
         | DDone c =>
             Some (mk (lock s) (calls s) (upd (wg s) c (wg s c - 1)) (next s) (open s)
-                     (upd (ts s) t (mkt Idle (t_key x) (t_gate x) (t_val x) (t_todo x) ((1, t_val x) :: t_res x)))
-                     (mkev t KRet 1 (t_key x) (t_val x) 1 :: trace s)
+                     (upd (ts s) t (mkt Idle (t_key x) (t_gate x) (t_val x) (t_todo x) ((S (pan_flag (t_val x)), t_val x) :: t_res x)))
+                     (mkev t KRet 1 (t_key x) (t_val x) (S (pan_flag (t_val x))) :: trace s)
                      (panicked s || Nat.eqb (wg s c) 0) (cre s))
         end
     end.
